@@ -635,6 +635,10 @@ class ReadInterp(Interp):
         v = self.eval(fr, e["e"])
         if isinstance(v, PathVal) and e["ty"] in ("usize", "u32", "u16", "u8", "u64"):
             return g_val(v.path)
+        if isinstance(v, Poly) and e["ty"] in ("u16", "u8", "i16", "i8") and \
+                any(g is not None and g[0] == "val" and g[1][-1:] == ("remaining_len",) for (_a, g) in v.m):
+            # what is left of the frame (up to 268,435,455) does not fit: the value read on is the length modulo 2^16 / 2^8
+            raise Unsupported("a quantity derived from the remaining length is narrowed with `as %s` at %s" % (e["ty"], loc(e)))
         return v
 
     def project(self, val, name, idx=None):
@@ -784,6 +788,17 @@ class ReadInterp(Interp):
         env0 = dict(fr.env)
         r0 = len(self.reads)
         known0 = dict(self.known)
+        # the iteration that is evaluated stands for every iteration: a local the body assigns and that holds a constant at
+        # the loop's entry (a counter starting at 0) holds an unknown value at the head of a later iteration
+        d0h = d0
+        for n in walk_all(e["body"]):
+            if n.get("k") in ("Assign", "AssignOp") and strip(n["l"]).get("k") == "Var":
+                vid = strip(n["l"])["var"]["id"]
+                cur = fr.env.get(vid)
+                if isinstance(cur, Poly) and cur.is_const() and isinstance(env0.get(vid), Poly) and env0[vid] is cur:
+                    fr.env[vid] = g_val(self.fresh("h"))
+        if any(fr.env.get(k) is not v for k, v in env0.items()):
+            d0h = dist()
         try:
             self.eval(fr, e["body"])
             diverged = False
@@ -793,7 +808,7 @@ class ReadInterp(Interp):
             raise Unsupported("loop body never completes an iteration at %s" % loc(e))
         d1 = dist()
         dc = self.resolve(self.consumed - c0)
-        dd = self.resolve(d0 - d1)
+        dd = self.resolve(d0h - d1)
         rd = self.reads[r0:]
         del self.reads[r0:]
         rec = {"fn_loc": loc(e), "cond": pp(c), "consumed": dc, "decrease": dd, "dist0": d0, "reads": rd,
@@ -1062,7 +1077,7 @@ class ReadInterp(Interp):
                         (Poly.const(1) - ind) * as_poly(dflt, "map_or default")
                 except Unsupported:
                     return Opaque("map_or")
-        if name == "map" and len(args) == 2 and (d.startswith("core::result::Result") or d.startswith("core::option::Option")):
+        if name in ("map", "and_then") and len(args) == 2 and (d.startswith("core::result::Result") or d.startswith("core::option::Option")):
             # `read(..).await.map(Arc::new)?` / `.map(|s| Arc::new(s))`: the mapped value of the success case
             v = self.eval(fr, args[0])
             f = self.eval_quiet(fr, args[1])
